@@ -104,22 +104,39 @@ def _tables(ctx):
     ctx.check(isinstance(ocr, RegexVal) and ocr.name == 'pp_twprge_ocr_scrub',
               'TBL', 'OCR_SCRUBBER is pp_twprge_ocr_scrub',
               detail_bad=f"OCR_SCRUBBER is {ocr!r}", key="TBL|OCR_SCRUBBER")
+    # with ocr_scrub the OCR scrubber runs FIRST (the plain pattern's loose
+    # `T[ownship]{0,9}` would otherwise swallow a look-alike letter after 'T')
+    fpp = ctx.repo.func('plss_preprocess:plss_preprocess')
+    ins = [c for c in walk_local(fpp.node) if isinstance(c, ast.Call) and isinstance(c.func, ast.Attribute)
+           and c.func.attr == 'insert' and len(c.args) == 2 and 'OCR' in norm(c.args[1]).upper()]
+    txt_pp = ' '.join(norm(x) for x in walk_local(fpp.node) if isinstance(x, ast.stmt))
+    if ins:
+        idx = ins[0].args[0]
+        v = ctx.fold.eval(idx, {}, fpp.module.name)
+        first = v == 0
+        notfirst = (isinstance(v, int) and not isinstance(v, bool) and v != 0) or (
+            isinstance(idx, ast.Call) and isinstance(idx.func, ast.Attribute) and idx.func.attr == 'index')
+        ctx.tri(first, notfirst, 'ORDER', 'with ocr_scrub the OCR scrubber runs before every other scrubber',
+                detail_bad=f"`{norm(ins[0])}` puts the OCR scrubber after the plain Twp/Rge pattern: 'TIS4N-R97W' is "
+                           f"first read as 'T..4N' by the loose township word and the look-alike digits are lost",
+                key="ORDER|plss_preprocess|ocr-first", where=common.loc(fpp, ins[0]))
+    else:
+        good = '(OCR_SCRUBBER,) + ' in txt_pp or '[OCR_SCRUBBER] + ' in txt_pp or '(OCR_SCRUBBER, *' in txt_pp or '[OCR_SCRUBBER, *' in txt_pp
+        bad = ' + (OCR_SCRUBBER,)' in txt_pp or ' + [OCR_SCRUBBER]' in txt_pp or '.append(OCR_SCRUBBER)' in txt_pp
+        ctx.tri(good, bad, 'ORDER', 'with ocr_scrub the OCR scrubber runs before every other scrubber',
+                detail_bad="the OCR scrubber is appended after the other scrubbers", key="ORDER|plss_preprocess|ocr-first")
     # every scrubber is applied: loop over the table calling sub_scrubber
     fi = ctx.repo.func('plss_preprocess:plss_preprocess')
     loops = [n for n in walk_local(fi.node) if isinstance(n, ast.For)
              and any(isinstance(c, ast.Call) and (dotted(c.func) or '').endswith('sub_scrubber')
                      for c in ast.walk(n))]
-    ctx.check(bool(loops), 'TBL', 'plss_preprocess applies sub_scrubber for each scrubber regex',
-              detail_bad="no loop applying sub_scrubber over the scrubber table",
-              key="TBL|plss_preprocess|loop")
+    ctx.shape(bool(loops), 'TBL', 'plss_preprocess applies sub_scrubber for each scrubber regex')
     # sub_scrubber only treats the OCR regex with ocr_scrub
     fs = ctx.repo.func('plss_preprocess:sub_scrubber')
     cmp_ok = any(isinstance(n, ast.Compare) and any(
         isinstance(x, ast.Name) and x.id in ('pp_twprge_ocr_scrub', 'OCR_SCRUBBER')
         for x in ast.walk(n)) for n in walk_local(fs.node))
-    ctx.check(cmp_ok, 'TBL', 'sub_scrubber: ocr_scrub only for the OCR regex',
-              detail_bad="sub_scrubber no longer restricts ocr_scrub to the OCR regex",
-              key="TBL|sub_scrubber|ocr")
+    ctx.shape(cmp_ok, 'TBL', 'sub_scrubber: ocr_scrub only for the OCR regex')
 
 
 def _final_use(fi, name):
@@ -171,9 +188,7 @@ def _unpack_defuse(ctx):
                     for test, pol in guards(n):
                         if pol and 'is not None' in norm(test) and subs[0] in norm(test).replace('"', "'"):
                             guarded = True
-        ctx.check(guarded, 'DEFUSE', f"unpack_twprge: {label} taken from the group only when it matched",
-                  detail_bad=f"assignment from {subs[0]} is not guarded by `{subs[0]} is not None`",
-                  key=f"DEFUSE|unpack_twprge|{label}|guard")
+        ctx.shape(guarded, 'DEFUSE', f"unpack_twprge: {label} taken from the group only when it matched")
     # numbers: through int() (leading zeros), rge falls back to the edge-case group
     for label, use, subs in (('twp_num', twp_n, ["groups['twpnum']"]),
                              ('rge_num', rge_n, ["groups['rgenum']", "groups['rgenum_edgecase_rge2']"])):
@@ -194,9 +209,7 @@ def _unpack_defuse(ctx):
             if isinstance(n, ast.Raise) and exc in norm(n):
                 if any(legal in norm(t) and 'not in' in norm(t) and pol for t, pol in guards(n)):
                     ok = True
-        ctx.check(ok, 'DEFUSE', f"unpack_twprge raises {exc} for an illegal default",
-                  detail_bad=f"validation of the default direction ({exc}) is gone or unguarded",
-                  key=f"DEFUSE|unpack_twprge|{exc}")
+        ctx.shape(ok, 'DEFUSE', f"unpack_twprge raises {exc} for an illegal default")
 
 
 def _ocr_table(ctx):
@@ -245,9 +258,7 @@ def _ocr_table(ctx):
     calls = [c for c in walk_local(fu.node) if isinstance(c, ast.Call)
              and (dotted(c.func) or '') == 'ocr_scrub_alpha_to_num']
     guarded = [c for c in calls if any(pol and norm(t) == 'ocr_scrub' for t, pol in guards(c))]
-    ctx.check(len(guarded) >= 2, 'TBL', 'unpack_twprge scrubs both numbers under ocr_scrub',
-              detail_bad=f"{len(guarded)} guarded ocr_scrub_alpha_to_num calls (need twp and rge)",
-              key="TBL|unpack_twprge|ocr")
+    ctx.shape(len(guarded) >= 2, 'TBL', 'unpack_twprge scrubs both numbers under ocr_scrub')
 
 
 def _fixed_twprge(ctx):
@@ -259,9 +270,7 @@ def _fixed_twprge(ctx):
             body = ' '.join(norm(s) for s in n.body)
             if 'fixed_twprge<' in body and 'w_flags.append' in body:
                 ok = True
-    ctx.check(ok, 'WARN', 'PLSSParser raises fixed_twprge iff Twp/Rges were filled in',
-              detail_bad="no `if preprocessor.fixed_twprges:` block raising the fixed_twprge warning",
-              key="WARN|PLSSParser.__init__|fixed_twprge")
+    ctx.shape(ok, 'WARN', 'PLSSParser raises fixed_twprge iff Twp/Rges were filled in')
     # plss_preprocess: fixed list = multiset difference (post - pre)
     fp = ctx.repo.func('plss_preprocess:plss_preprocess')
     good = bad = None
@@ -283,11 +292,10 @@ def _fixed_twprge(ctx):
     elif good is not None:
         ctx.ok('WARN', 'plss_preprocess: fixed Twp/Rges', 'one occurrence removed per original Twp/Rge (multiset difference)')
     else:
-        raise AnalysisError("plss_preprocess: cannot recognise how fixed Twp/Rges are computed")
+        ctx.undecided('WARN', 'plss_preprocess: fixed Twp/Rges', 'computation not recognised')
     # both find_twprge probes are there (before and after scrubbing)
     probes = [c for c in walk_local(fp.node) if isinstance(c, ast.Call) and (dotted(c.func) or '') == 'find_twprge']
-    ctx.check(len(probes) >= 2, 'WARN', 'plss_preprocess probes Twp/Rges before and after scrubbing',
-              detail_bad="fewer than two find_twprge probes", key="WARN|plss_preprocess|probes")
+    ctx.shape(len(probes) >= 2, 'WARN', 'plss_preprocess probes Twp/Rges before and after scrubbing')
 
 
 SUPPRESSED_IMPORT_TIME_DEFAULTS = {
@@ -352,3 +360,6 @@ def _callsites_pass(ctx, fi, p, rule):
 
 def _calltime_defaults(ctx):
     ctx.attempt(calltime_defaults)
+    from .c13 import precedence
+    for spec in ('PLSSDesc.parse', 'PLSSDesc.preprocess', 'Tract.set_twprgesec', 'PLSSPreprocessor.preprocess'):
+        precedence(ctx, ctx.repo.func(spec), ('default_ns', 'default_ew'))
